@@ -22,7 +22,7 @@ class Prop:
     id = "C37"
     level = "exploration"
     engine = "VT"
-    quick_runs = 60000
+    quick_runs = 200000
     thorough_runs = 2000000
     rule = ("seeded arguments for range (negative steps, empty ranges, one- and two-argument forms), of / from_iterable (lists, tuples, "
             "generators, falsy elements), return_value, empty, never, throw, generate (bounded loops), generate_with_relative_time "
